@@ -215,7 +215,7 @@ def o_resume_with_publish(ad, a, b, c):
 
 
 TRIGGERS = ["publish_ok", "onPublish", "subscribe_ok", "connect_ok", "onMqttConnectionMade", "publish_ok", "request_failed", "publish_ok"]
-ACTIONS = ["disconnect", "publish", "disconnect", "subscribe", "publish", "unsubscribe", "publish", "publish"]
+ACTIONS = ["disconnect", "publish", "disconnect", "subscribe", "publish", "unsubscribe", "publish", "disconnect"]
 
 
 def o_arm(ad, a, b, c):
